@@ -43,6 +43,7 @@ type LexCase struct {
 	Prop string `json:"prop"`
 	Kind string `json:"kind"`
 	Src  string `json:"src"`
+	Hex  bool   `json:"hex,omitempty"` // Src holds hex-encoded bytes (not valid UTF-8)
 	Want []tok  `json:"want"`
 	Msg  string `json:"message,omitempty"`
 }
@@ -75,6 +76,11 @@ func init() {
 		var c LexCase
 		if err := jsonUnmarshal(raw, &c); err != nil {
 			return err
+		}
+		if c.Hex {
+			var b []byte
+			fmt.Sscanf(c.Src, "%x", &b)
+			return runTermination(string(b))
 		}
 		return runTermination(c.Src)
 	}
